@@ -81,11 +81,20 @@ func (t *tdExt) close() {
 	}
 }
 
-// bits: local client subscribed to / bound to p's server [1]/4, node management subscribed to p's node management
+// the remote server features the local client feature subscribes / binds to: on the parent entity [1] and on its
+// sub-entity [1,1] of every peer
+var tdTargets = []string{"1", "1.1"}
+
+// bits: local client subscribed to / bound to p's server [1]/4, subscribed to / bound to p's server [1,1]/4, node
+// management subscribed to p's node management — each looked up by its exact address
 func (t *tdExt) chas(p int) string {
-	a := h.FA(regDev(p), []uint{1}, 4)
+	var b []string
+	for _, e := range tdTargets {
+		a := h.FA(regDev(p), regParseEnt(e), 4)
+		b = append(b, strconv.Itoa(h.B2i(t.lc.HasSubscriptionToRemote(a))), strconv.Itoa(h.B2i(t.lc.HasBindingToRemote(a))))
+	}
 	nm := h.FA(regDev(p), []uint{0}, 0)
-	return fmt.Sprintf("%d %d %d", h.B2i(t.lc.HasSubscriptionToRemote(a)), h.B2i(t.lc.HasBindingToRemote(a)), h.B2i(t.w.l.NodeManagement().HasSubscriptionToRemote(nm)))
+	return strings.Join(append(b, strconv.Itoa(h.B2i(t.w.l.NodeManagement().HasSubscriptionToRemote(nm)))), " ")
 }
 
 func (t *tdExt) before() {
@@ -281,7 +290,7 @@ func (t *tdExt) step(r *h.Report, done []string, f []string, preS, preB []regEnt
 		}
 	case "csub", "cbind":
 		p := atoi(1)
-		a := h.FA(regDev(p), []uint{1}, 4)
+		a := h.FA(regDev(p), regParseEnt(f[2]), 4)
 		var e *model.ErrorType
 		if f[0] == "csub" {
 			_, e = t.lc.SubscribeToRemote(a)
@@ -339,7 +348,7 @@ func (t *tdExt) step(r *h.Report, done []string, f []string, preS, preB []regEnt
 }
 
 // afterTeardown: SPEC (C10) for the parts only the composed world has.
-func (t *tdExt) afterTeardown(r *h.Report, done []string, op string, p int, ent string) {
+func (t *tdExt) afterTeardown(r *h.Report, done []string, op string, p int, ent string, existed bool) {
 	for c, sp := range t.pend {
 		if sp.peer == p && (ent == "" || sp.ce == ent) {
 			delete(t.pend, c)
@@ -348,24 +357,44 @@ func (t *tdExt) afterTeardown(r *h.Report, done []string, op string, p int, ent 
 	}
 	for q := 1; q <= t.w.npeers; q++ {
 		now := t.chas(q)
-		want := t.preBits[q]
-		switch {
-		case q == p && ent == "":
-			want = "0 0 0"
-		case q == p && ent == "1" && !strings.HasSuffix(t.preBits[q], "0 0 0"):
-			want = "0 0 " + want[4:] // the remembered server [1]/4 belongs to the removed entity
+		bits := strings.Fields(t.preBits[q])
+		if q == p && existed {
+			for i, e := range tdTargets {
+				// all and ONLY the bookkeeping for the removed device / for exactly the removed entity disappears
+				if ent == "" || ent == e {
+					bits[2*i], bits[2*i+1] = "0", "0"
+				}
+			}
+			if ent == "" {
+				bits[len(bits)-1] = "0"
+			}
 		}
+		want := strings.Join(bits, " ")
 		if now != want {
 			key := "C10/client-bookkeeping-survives-teardown"
+			nb := strings.Fields(now)
+			for i := range bits {
+				if i < len(nb) && bits[i] == "1" && nb[i] == "0" {
+					key = "C10/teardown-removes-other-entitys-bookkeeping" // something that does not refer to the removed entity is gone
+				}
+			}
 			if q != p {
 				key = "C10/teardown-touches-other-peers-bookkeeping"
 			}
-			r.SpecFail(key, done, fmt.Sprintf("after %s the local client features' bookkeeping for peer %d is %q (subscribed, bound, node management), expected %q", op, q, now, want))
+			r.SpecFail(key, done, fmt.Sprintf("after %s the local client features' bookkeeping for peer %d is %q, expected %q (subscribed / bound to [1]/4, to [1,1]/4, node management)", op, q, now, want))
 		}
 	}
 }
 
 // ---------------------------------------------------------------- generation
+
+// tdE prints an entity number of the generator: 11 is the sub-entity [1,1]
+func tdE(e int) string {
+	if e == 11 {
+		return "1.1"
+	}
+	return strconv.Itoa(e)
+}
 
 func genTdHistory(rng regRng, n, np int, withShort bool) (ops []string, firstShort int) {
 	ops = []string{fmt.Sprintf("peers %d", np)}
@@ -374,11 +403,12 @@ func genTdHistory(rng regRng, n, np int, withShort bool) (ops []string, firstSho
 	var binds, prefix []bound
 	var pend []string // "p w"
 	ctr := 100000
-	valid := [][5]int{{1, 1, 1, 1, 1}, {1, 2, 1, 2, 2}, {2, 1, 1, 1, 1}, {1, 3, 1, 1, 1}, {1, 3, 1, 2, 2}, {1, 1, 2, 1, 1}, {2, 1, 2, 1, 1}, {1, 3, 2, 1, 1}}
+	valid := [][5]int{{1, 1, 1, 1, 1}, {1, 2, 1, 2, 2}, {2, 1, 1, 1, 1}, {1, 3, 1, 1, 1}, {1, 3, 1, 2, 2}, {1, 1, 2, 1, 1}, {2, 1, 2, 1, 1}, {1, 3, 2, 1, 1},
+		{11, 1, 1, 1, 1}, {11, 1, 2, 1, 1}}
 	if withShort || rng.Intn(10) < 6 {
 		// a prefix that binds one client of each peer to a server of its own, so that writes are accepted
 		for p, v := range [][5]int{{1, 1, 1, 1, 1}, {1, 2, 1, 2, 2}, {1, 1, 2, 1, 1}}[:np] {
-			ops = append(ops, fmt.Sprintf("bind %d %d %d %d %d %d", p+1, v[0], v[1], v[2], v[3], v[4]))
+			ops = append(ops, fmt.Sprintf("bind %d %s %d %d %d %d", p+1, tdE(v[0]), v[1], v[2], v[3], v[4]))
 			binds = append(binds, bound{p + 1, v[0], v[1], v[2], v[3]})
 		}
 		prefix = append(prefix, binds...)
@@ -396,17 +426,17 @@ func genTdHistory(rng regRng, n, np int, withShort bool) (ops []string, firstSho
 		v := valid[rng.Intn(len(valid))]
 		switch k := rng.Intn(30); {
 		case k < 6:
-			ops = append(ops, fmt.Sprintf("bind %d %d %d %d %d %d", p, v[0], v[1], v[2], v[3], v[4]))
+			ops = append(ops, regDecorate(rng, fmt.Sprintf("bind %d %s %d %d %d %d", p, tdE(v[0]), v[1], v[2], v[3], v[4]), np, true))
 			binds = append(binds, bound{p, v[0], v[1], v[2], v[3]})
 		case k < 10:
-			ops = append(ops, fmt.Sprintf("sub %d %d %d %d %d %d", p, v[0], v[1], v[2], v[3], v[4]))
+			ops = append(ops, regDecorate(rng, fmt.Sprintf("sub %d %s %d %d %d %d", p, tdE(v[0]), v[1], v[2], v[3], v[4]), np, true))
 		case k < 17:
 			b := bound{p, v[0], v[1], v[2], v[3]}
 			if len(binds) > 0 && rng.Intn(6) > 0 {
 				b = binds[rng.Intn(len(binds))]
 			}
 			ctr++
-			ops = append(ops, fmt.Sprintf("wr %d %d %d %d %d %d L", b.p, b.ce, b.cf, b.se, b.sf, ctr))
+			ops = append(ops, fmt.Sprintf("wr %d %s %d %d %d %d L", b.p, tdE(b.ce), b.cf, b.se, b.sf, ctr))
 			pend = append(pend, fmt.Sprintf("%d %d", b.p, ctr))
 		case k < 19 && len(pend) > 0:
 			j := rng.Intn(len(pend))
@@ -415,7 +445,7 @@ func genTdHistory(rng regRng, n, np int, withShort bool) (ops []string, firstSho
 				pend = append(pend[:j], pend[j+1:]...)
 			}
 		case k < 21:
-			ops = append(ops, fmt.Sprintf("%s %d", []string{"csub", "cbind"}[rng.Intn(2)], p))
+			ops = append(ops, fmt.Sprintf("%s %d %s", []string{"csub", "cbind"}[rng.Intn(2)], p, tdTargets[rng.Intn(2)]))
 		case k < 22:
 			ops = append(ops, fmt.Sprintf("chas %d", p))
 		case k < 23:
@@ -427,10 +457,10 @@ func genTdHistory(rng regRng, n, np int, withShort bool) (ops []string, firstSho
 			ops = append(ops, fmt.Sprintf("notify %d %d", s[0], s[1]))
 		case k < 27 && len(binds) > 0:
 			if b := binds[rng.Intn(len(binds))]; !(withShort && inPrefix(b)) {
-				ops = append(ops, fmt.Sprintf("unbind %d 0 %d %d %d %d", b.p, b.ce, b.cf, b.se, b.sf))
+				ops = append(ops, fmt.Sprintf("unbind %d 0 %s %d %d %d", b.p, tdE(b.ce), b.cf, b.se, b.sf))
 			}
 		case k < 28:
-			ops = append(ops, fmt.Sprintf("unsub %d 0 %d %d %d %d", p, v[0], v[1], v[2], v[3]))
+			ops = append(ops, fmt.Sprintf("unsub %d 0 %s %d %d %d", p, tdE(v[0]), v[1], v[2], v[3]))
 		default:
 			ops = append(ops, fmt.Sprintf("%s %d", []string{"subs", "binds"}[rng.Intn(2)], p))
 		}
@@ -442,7 +472,7 @@ func genTdHistory(rng regRng, n, np int, withShort bool) (ops []string, firstSho
 		for _, b := range prefix[:2] {
 			for j := 0; j < 1+rng.Intn(2); j++ {
 				ctr++
-				ops = append(ops, fmt.Sprintf("wr %d %d %d %d %d %d S", b.p, b.ce, b.cf, b.se, b.sf, ctr))
+				ops = append(ops, fmt.Sprintf("wr %d %s %d %d %d %d S", b.p, tdE(b.ce), b.cf, b.se, b.sf, ctr))
 			}
 			switch rng.Intn(4) {
 			case 0:
@@ -475,14 +505,14 @@ func tdObserve(ops []string, np int, withFire bool) []string {
 		}
 	}
 	for q := 1; q <= np; q++ {
-		tail = append(tail, fmt.Sprintf("chas %d", q), fmt.Sprintf("resolve %d", q), fmt.Sprintf("read %d", q), fmt.Sprintf("csub %d", q), fmt.Sprintf("chas %d", q))
+		tail = append(tail, fmt.Sprintf("chas %d", q), fmt.Sprintf("resolve %d", q), fmt.Sprintf("read %d", q), fmt.Sprintf("csub %d %s", q, tdTargets[q%2]), fmt.Sprintf("chas %d", q))
 	}
 	return append(tail, regObserve(np)...)
 }
 
 var tdWitTimer = []string{"peers 2", "bind 1 1 1 1 1 1", "wr 1 1 1 1 1 100001 S", "drop 1", "fire"}
 var tdWitEntityAppr = []string{"peers 2", "bind 1 1 1 1 1 1", "wr 1 1 1 1 1 100001 L", "dropent 1 1", "approve 1 100001"}
-var tdWitBinding = []string{"peers 2", "bind 2 1 1 1 1 1", "bind 1 1 1 2 1 1", "csub 1", "csub 2", "cbind 2", "wr 2 1 1 1 1 100001 L", "wr 1 1 1 2 1 100002 L", "drop 1", "binds 2", "chas 1", "chas 2", "approve 2 100001", "read 2", "resolve 1", "resolve 2"}
+var tdWitBinding = []string{"peers 2", "bind 2 1 1 1 1 1", "bind 1 1 1 2 1 1", "csub 1 1", "csub 2 1", "cbind 2 1", "wr 2 1 1 1 1 100001 L", "wr 1 1 1 2 1 100002 L", "drop 1", "binds 2", "chas 1", "chas 2", "approve 2 100001", "read 2", "resolve 1", "resolve 2"}
 
 func TestTeardown(t *testing.T) {
 	r := h.NewReport("teardown", "histories in which 2-3 peers with identical numbering subscribe, bind, write to local server features (writes pending application approval with long or short timers, verdicts), are subscribed / bound to by a local client feature, read data; a connection drop or an entity-removed notification inserted at every position (fault enumeration); afterwards the timers fire and every pending verdict, the bookkeeping, device resolution, service to the others, every list and a change of every server feature are observed; compared op by op with Spine.Td (member selected by probing); non-trivial = a history (distinct by op text) that agreed to its end")
@@ -490,6 +520,8 @@ func TestTeardown(t *testing.T) {
 	ev := &regEvents{}
 	_ = spine.Events.Subscribe(ev)
 	defer func() { _ = spine.Events.Unsubscribe(ev) }()
+	_ = spine.VerifSubscribeCore(regCore)
+	defer func() { _ = spine.VerifUnsubscribeCore(regCore) }()
 	d := h.StartDriver("drv_td")
 	defer d.Close()
 	base := h.Baseline()
@@ -535,12 +567,20 @@ func TestTeardown(t *testing.T) {
 	for _, wit := range [][]string{tdWitTimer, tdWitEntityAppr, tdWitBinding, regWitDropAny, regWitDropEntAny} {
 		run(wit)
 	}
+	// parent and child entities: the local client is subscribed and bound to servers of [1] and of [1,1] of both peers,
+	// both peers have entries from both entities; the child goes while the parent stays, and the other way round
+	hier := []string{"peers 2", "csub 1 1", "cbind 1 1", "csub 1 1.1", "cbind 1 1.1", "csub 2 1", "cbind 2 1", "csub 2 1.1", "cbind 2 1.1",
+		"sub 1 1 1 1 1 1", "sub 1 1.1 1 1 1 1", "sub 2 1 1 1 1 1", "sub 2 1.1 1 1 1 1", "bind 1 1.1 1 1 1 1", "bind 2 1 2 1 2 2", "wr 1 1.1 1 1 1 100001 L"}
+	for _, fault := range []string{"dropent 1 1.1", "dropent 1 1", "dropent 2 1.1", "dropent 2 1", "drop 1"} {
+		run(append(append(append([]string{}, hier...), fault), tdObserve(hier, 2, false)...))
+		run(append(append(append(append([]string{}, hier...), fault), "dropent 1 1", "dropent 1 1.1"), tdObserve(hier, 2, false)...))
+	}
 	rng := h.Rng(10)
 	insert := func(b []string, pos, np int, withFire bool) []string {
 		p := 1 + rng.Intn(np)
 		fault := fmt.Sprintf("drop %d", p)
 		if rng.Intn(3) == 0 {
-			fault = fmt.Sprintf("dropent %d %d", p, 1+rng.Intn(2))
+			fault = fmt.Sprintf("dropent %d %s", p, []string{"1", "1.1", "1.1", "2"}[rng.Intn(4)])
 		}
 		ops := append(append(append([]string{}, b[:pos]...), fault), b[pos:]...)
 		return append(ops, tdObserve(b, np, withFire)...)
@@ -562,6 +602,74 @@ func TestTeardown(t *testing.T) {
 			run(insert(b, pos, np, true))
 		}
 	}
+	// operations of another peer injected at the event points of a teardown (removal events of every kind, every index)
+	eventsOf := func(ops []string) map[string]int {
+		cst := &regStats{}
+		runRegHistoryTd(h.Quiet(), nil, ev, base, ops, cst, true)
+		return cst.lastEvents
+	}
+	injectAll := func(setup []string, tear string, bops []string, np int) {
+		seen := eventsOf(append(append([]string{}, setup...), tear))
+		for _, kind := range []string{"entity-", "sub-", "bind-", "device-"} {
+			for idx := 0; idx < seen[kind]; idx++ {
+				for _, b := range bops {
+					ops := append(append([]string{}, setup...), fmt.Sprintf("%s @%s:%d %s", tear, kind, idx, b))
+					run(append(ops, regObserve(np)...))
+				}
+			}
+		}
+	}
+	// peer 1 is torn down: it holds subscriptions from [1], [1,1] and [2] and bindings from [1] and [1,1]; peer 2 has
+	// entries of its own with the same numbers
+	setupA := []string{"peers 2", "sub 1 1 1 1 1 1", "sub 1 1.1 1 1 1 1", "sub 1 2 1 2 1 1", "bind 1 1 1 1 1 1", "bind 1 1.1 1 2 1 1",
+		"sub 2 1 1 1 1 1", "sub 2 1 2 1 2 2", "bind 2 1 2 1 2 2"}
+	bops := []string{"sub 2 2 1 1 1 1", "sub 2 1.1 1 2 1 1", "sub 2 1 1 1 1 1", "unsub 2 0 1 1 1 1", "bind 2 2 1 2 1 1", "bind 2 1 1 1 1 1 sd0",
+		"unbind 2 0 1 2 1 2", "notify 1 1", "notify 2 1"}
+	for _, tear := range []string{"drop 1", "dropent 1 1", "dropent 1 1.1"} {
+		injectAll(setupA, tear, bops, 2)
+		// peer 1's entity [2] is gone already: a binding of peer 2 from its own entity [2] is out of reach of the
+		// known any-peer defect, so its loss would be a lost update
+		injectAll(append(append([]string{}, setupA...), "dropent 1 2"), tear, []string{"bind 2 2 1 2 1 1", "sub 2 2 1 2 1 1"}, 2)
+	}
+	// generated: a random teardown at the end of a generated history, a random operation of another peer at a random event
+	for i := 0; i < h.Scale(40, 600); i++ {
+		np := 2 + rng.Intn(2)
+		b, _ := genTdHistory(rng, 10+rng.Intn(20), np, false)
+		p := 1 + rng.Intn(np)
+		tear := fmt.Sprintf("drop %d", p)
+		if rng.Intn(3) == 0 {
+			tear = fmt.Sprintf("dropent %d %s", p, []string{"1", "1.1", "2"}[rng.Intn(3)])
+		}
+		seen := eventsOf(append(append([]string{}, b...), tear))
+		var points []string
+		for _, kind := range []string{"entity-", "sub-", "bind-", "device-"} {
+			for idx := 0; idx < seen[kind]; idx++ {
+				points = append(points, fmt.Sprintf("@%s:%d", kind, idx))
+			}
+		}
+		if len(points) == 0 {
+			continue
+		}
+		q := 1 + (p+rng.Intn(np-1))%np // another peer
+		v := regValid[rng.Intn(len(regValid))]
+		var bop string
+		switch rng.Intn(6) {
+		case 0, 1:
+			bop = regDecorate(rng, fmt.Sprintf("sub %d %s %d %s %d %d", q, v.ce, v.cf, v.se, v.sf, v.ty), np, true)
+		case 2:
+			bop = regDecorate(rng, fmt.Sprintf("bind %d %s %d %s %d %d", q, v.ce, v.cf, v.se, v.sf, v.ty), np, true)
+		case 3:
+			bop = fmt.Sprintf("unsub %d 0 %s %d %s %d", q, v.ce, v.cf, v.se, v.sf)
+		case 4:
+			bop = fmt.Sprintf("unbind %d 0 %s %d %s %d", q, v.ce, v.cf, v.se, v.sf)
+		default:
+			s := [][2]int{{1, 1}, {1, 2}, {2, 1}}[rng.Intn(3)]
+			bop = fmt.Sprintf("notify %d %d", s[0], s[1])
+		}
+		ops := append(append([]string{}, b...), tear+" "+points[rng.Intn(len(points))]+" "+bop)
+		run(append(ops, tdObserve(b, np, false)...))
+	}
+	r.Info["operations_injected_into_teardowns"] = st.injected
 	r.Info["timing_flakes_abandoned"] = flakes
 	r.Info["faults_executed"] = st.faults
 	if regClean(r, tdKnownKeys) {
